@@ -411,6 +411,11 @@ class World(object):
             res.violation("I7-raised", op, "quarter_duration_map raised %s: %s" % (type(e).__name__, e))
             return
         keep = [c for c in m.qcands if m.fn_of(c, self.upto) == obs]
+        if not keep and getattr(m, "q_overflow", False):
+            # the candidate set was cut earlier in this run: the right table may have been among the dropped ones
+            res.count("qcands_overflow_unjudged")
+            m.qcands = [dict((t, obs[t]) for t in range(0, self.upto + 1) if t == 0 or obs[t] != obs[t - 1])]
+            return
         if not keep:
             res.violation(
                 "I5-quarter-function",
@@ -418,7 +423,10 @@ class World(object):
                 "quarter duration in force at t=0..%d is %s; reference candidates %s" % (self.upto, list(obs), [list(m.fn_of(c, self.upto)) for c in m.qcands][:4]),
             )
             return
-        m.qcands = keep[:8]
+        if len(keep) > 512:
+            m.q_overflow = True
+            keep = keep[:512]
+        m.qcands = keep
         for p in pts:
             if p.quarter != obs[p.t]:
                 res.violation("I5-point-quarter", op, "point t=%s carries quarter=%s, in force is %s" % (p.t, p.quarter, obs[p.t]))
